@@ -1,7 +1,8 @@
 #!/usr/bin/env python3
-"""keepmutants.py PROP OUTDIR: copy validated mutants into /verif/seeded/PROP-N, running validation + the check, and record results in meta.json."""
+"""keepmutants.py PROP OUTDIR [NUMBER-OFFSET]: copy validated mutants into /verif/seeded/PROP-N, running validation + the check, and record results in meta.json."""
 import sys, os, json, subprocess, shutil, re
 prop, out = sys.argv[1], sys.argv[2]
+offset = int(sys.argv[3]) if len(sys.argv) > 3 else 0
 for n in ('1','2','3','4','5'):
     d = os.path.join(out, n)
     if not os.path.exists(os.path.join(d, 'patch.diff')): continue
@@ -13,7 +14,7 @@ for n in ('1','2','3','4','5'):
     ok = (' ok ' in parts[1] or '\nok' in parts[1]) and 'FAIL' in parts[3] and ('ok' in parts[4] and 'FAIL' not in parts[4])
     chk = subprocess.run(['/verif/tools/trymutant.sh', os.path.join(d,'patch.diff'), prop], capture_output=True, text=True).stdout
     viol = [l.split('obligation=')[1].split()[0] for l in chk.splitlines() if l.startswith('VIOLATION')]
-    dst = f'/verif/seeded/{prop}-{n}'
+    dst = f'/verif/seeded/{prop}-{int(n)+offset}'
     os.makedirs(dst, exist_ok=True)
     for f in ('patch.diff','demo_test.go'):
         shutil.copy(os.path.join(d,f), os.path.join(dst,f))
